@@ -187,6 +187,7 @@ CHECKS = {
             E("TestC11RefusedLock", quick={"shards": 1, "timeout": 600}, thorough={"shards": 1, "timeout": 900}),
             E("TestC11Pipelined", quick={"shards": 1, "timeout": 600}, thorough={"shards": 1, "timeout": 900}),
             E("TestC11ListingOwnership", quick={"shards": 1, "timeout": 600}, thorough={"shards": 1, "timeout": 900}),
+            E("TestC11WaitAddHard", quick={"shards": 1, "timeout": 600}, thorough={"shards": 1, "timeout": 900}),
             R("TestC11Concurrent", 40, 250, qs=2, quick_extra={"timeout": 600}, thorough_extra={"timeout": 1500}),
             R("TestC11Sequential", 150, 1500, qs=2, ts=8, quick_extra={"timeout": 600}, thorough_extra={"timeout": 1500}),
         ],
@@ -222,6 +223,7 @@ CHECKS = {
         "assumptions": ["slot names returned by a served agent contain no comma (the reply is an SSH name-list)", "the fake tool is a /bin/sh script; slot arguments contain no newline or NUL"],
         "subchecks": [
             E("TestC13KnownFindings"),
+            E("TestC13Repeats"),
             R("TestC13Client", 1500, 8000, quick_extra={"timeout": 120}, thorough_extra={"timeout": 900}),
             R("TestC13Tool", 150, 500),
             E("TestC13Slow", thorough={"shards": 1, "timeout": 600}),
@@ -310,7 +312,7 @@ CHECKS = {
         "subchecks": [
             E("TestC18Grid"),
             E("TestC18Expiry"),
-            E("TestC18Aliases"),
+            E("TestC18Aliases"), E("TestC18Renewed"),
             R("TestC18TLS", 120, 500, qs=2),
         ],
     },
